@@ -92,7 +92,7 @@ fn gen_dir(f: &mut Fmt, parent: usize, name: &str, rng: &mut Rng, target_slots: 
                 if rng.chance(1, 2) {
                     nm[3] = b' '; // interior space
                 }
-                let attr = *rng.pick(&[0x01u8, 0x02, 0x04, 0x07, 0x21, 0x27, 0x00, 0x40, 0x80, 0xC0, 0xE0]);
+                let attr = *rng.pick(&[0x01u8, 0x02, 0x04, 0x07, 0x21, 0x27, 0x00, 0x40, 0x80, 0xC0, 0xE0, 0x2F, 0x3F, 0x1F, 0x2F]);
                 let raw = f.raw_entry(&nm, attr, 0, rng.next_u32() % 5000);
                 f.put_slot(d, &raw, Alloc::Scatter);
             }
@@ -515,7 +515,7 @@ pub fn run(ctx: &Ctx) -> i32 {
             rule: "a case is one directory (root or sub-directory of a formatter-made volume with a random mix of live/deleted/LFN/label slots, fragmented multi-cluster chains, end marker at cluster edges, FAT16 roots of 16/32/112/512 entries, FAT32 roots at several start clusters) compared entry-for-entry (all fields and the slot location) between iterate_dir/iterate_dir_lfn/find_directory_entry/open_dir and the independent reader; distinct = distinct (geometry, directory path, case) triples; a case is non-trivial because each performs a full listing comparison".into(),
             assumptions: vec![
                 "the independent reader (fatref) is correct; it is cross-validated in selftest against the formatter and the repository's macOS-made image".into(),
-                "slots count as long-name fragments when (attr & 0x0F) == 0x0F; generators avoid attribute bytes where that differs from (attr & 0x3F) == 0x0F".into(),
+                "slots count as long-name fragments when (attr & 0x3F) == 0x0F, as the specification says; attribute bytes 0x1F, 0x2F, 0x3F are generated".into(),
                 "volume-label slots are never opened by name".into(),
             ],
             exhaustive: None,
